@@ -9,8 +9,8 @@ cp /verif/known_findings.txt /verif/properties.jsonl $scr/verif/ 2>/dev/null
 cp ${BIN:-/verif/bin/vfcheck} $scr/verif/bin/vfcheck
 export GOFLAGS=-mod=mod GOPROXY=off GOSUMDB=off GOTOOLCHAIN=local GOWORK=off CGO_ENABLED=0
 cd $scr/verif
-bin/vfcheck -list | tr " " "\n" | grep -v "^$" | xargs -P ${PAR:-4} -I{} sh -c 'VERIF_NO_SELFTEST=1 bin/vfcheck -prop {} -tier quick -repo '"$scr"'/repo -verif '"$scr"'/verif > '"$scr"'/{}.out 2>&1; echo $? > '"$scr"'/{}.rc'
-for p in $(bin/vfcheck -list); do
+(if [ -n "$CHECKS" ]; then echo $CHECKS; else bin/vfcheck -list; fi) | tr " " "\n" | grep -v "^$" | xargs -P ${PAR:-4} -I{} sh -c 'VERIF_NO_SELFTEST=1 bin/vfcheck -prop {} -tier quick -repo '"$scr"'/repo -verif '"$scr"'/verif > '"$scr"'/{}.out 2>&1; echo $? > '"$scr"'/{}.rc'
+for p in $(if [ -n "$CHECKS" ]; then echo $CHECKS; else bin/vfcheck -list; fi); do
   rc=$(cat $scr/$p.rc)
   if [ "$rc" != "0" ]; then echo "== $p rc=$rc"; grep -E '^\s+(VIOLATED|UNDECIDED)|no verdict|panic|error' $scr/$p.out | cut -c1-400 | head -8; fi
 done
